@@ -30,6 +30,7 @@ RECURSIVE Match(_, _)
 Match(o, v) ==
     IF "w" \in DOMAIN o THEN TRUE                             \* too big to carry: not compared
     ELSE IF "i" \in DOMAIN o THEN IsI(v) /\ v.i = o.i
+    ELSE IF "s" \in DOMAIN o THEN IsS(v) /\ v.s = o.s
     ELSE IF "z" \in DOMAIN o THEN IsL(v)                       \* an unforced lazy list: shape only
     ELSE IF "l" \in DOMAIN o THEN IsL(v) /\ Len(v.l) = Len(o.l) /\ \A k \in 1..Len(o.l) : Match(o.l[k], v.l[k])
     ELSE IF "f" \in DOMAIN o THEN IsF(v)
